@@ -21,9 +21,11 @@ pub fn def() -> PropDef {
         profiles: &["checked", "fast"],
         abort_is_violation: false,
         rule: "complete enumeration of (combinator, input case, continuation result) for the 15 \
-               combinators with several payload triples in four evaluation contexts (plain or inside a \
+               combinators with several payload triples in 16 evaluation contexts (plain or inside a \
                destructor while the thread unwinds; i64 payloads with capturing closures or zero-sized \
-               payloads with stateless fn items counted through a thread-local), plus proptest-drawn payloads; a case is \
+               payloads with stateless fn items counted through a thread-local; plain or inside 1500 active \
+               continuations of the combinators; at one stack position or shallow / 4 MiB deeper / shallow on one \
+               thread), once more while 300 threads are parked inside continuations, plus proptest-drawn payloads; a case is \
                non-trivial when the combinator takes a closure, so that its (non-)invocation and \
                argument are observable; distinct = distinct (combinator, \
                input, continuation, payloads)",
@@ -488,6 +490,182 @@ fn while_unwinding<R>(f: impl FnOnce() -> R) -> Result<R, String> {
     }
 }
 
+// ---- further evaluation contexts -------------------------------------------------------------
+
+/// Runs `leaf` inside `depth` active continuations/alternatives of the real combinators (cycled:
+/// and_then, or_parse, and_also, map, and_do, or_always_parse, ResultExt::and_also); every level
+/// checks its own combinator's result and that its closure ran exactly once.
+fn nest<R>(depth: usize, leaf: &mut dyn FnMut() -> R, bad: &mut Option<String>) -> Option<R> {
+    if depth == 0 {
+        return Some(leaf());
+    }
+    let d = depth as i64;
+    let mut out = None;
+    let mut calls = 0u32;
+    let ok = match depth % 7 {
+        0 => {
+            Parsed::<i64, i64>::Res(Ok(d)).and_then(|v| {
+                calls += 1;
+                out = nest(depth - 1, leaf, bad);
+                Ok(v)
+            }) == Parsed::Res(Ok(d))
+        }
+        1 => {
+            Parsed::<i64, i64>::Fallthrough.or_parse(|| {
+                calls += 1;
+                out = nest(depth - 1, leaf, bad);
+                Parsed::Res(Ok(d))
+            }) == Parsed::Res(Ok(d))
+        }
+        2 => {
+            Parsed::<i64, i64>::Res(Ok(d)).and_also(|_| {
+                calls += 1;
+                out = nest(depth - 1, leaf, bad);
+                Ok(())
+            }) == Parsed::Res(Ok(d))
+        }
+        3 => {
+            Parsed::<i64, i64>::Res(Ok(d)).map(|v| {
+                calls += 1;
+                out = nest(depth - 1, leaf, bad);
+                v + 1
+            }) == Parsed::Res(Ok(d + 1))
+        }
+        4 => {
+            Parsed::<i64, i64>::Res(Ok(d)).and_do(|_| {
+                calls += 1;
+                out = nest(depth - 1, leaf, bad);
+            }) == Parsed::Res(Ok(d))
+        }
+        5 => {
+            Parsed::<i64, i64>::Fallthrough.or_always_parse(|| {
+                calls += 1;
+                out = nest(depth - 1, leaf, bad);
+                Ok(d)
+            }) == Ok(d)
+        }
+        _ => {
+            ResultExt::and_also(Ok::<i64, i64>(d), |_| {
+                calls += 1;
+                out = nest(depth - 1, leaf, bad);
+                Ok(())
+            }) == Ok(d)
+        }
+    };
+    if (!ok || calls != 1) && bad.is_none() {
+        *bad = Some(format!(
+            "nesting level {depth} ({}): result as documented: {ok}, closure invoked {calls} time(s)",
+            ["and_then", "or_parse", "and_also", "map", "and_do", "or_always_parse", "ResultExt::and_also"][depth % 7]
+        ));
+    }
+    out
+}
+
+pub const NEST_DEPTH: usize = 1500;
+
+/// Calls `f` about `levels` x 64 KiB further down the stack.
+#[inline(never)]
+fn descend<R>(levels: usize, f: &mut dyn FnMut() -> R) -> R {
+    let mut pad = [0u8; 64 << 10];
+    std::hint::black_box(&mut pad);
+    let r = if levels == 0 { f() } else { descend(levels - 1, f) };
+    std::hint::black_box(&pad);
+    r
+}
+
+/// Evaluates at a shallow stack position, about 4 MiB further down, and shallow again, on a fresh
+/// thread with a 16 MiB stack; all three observations are returned.
+fn at_stack_positions(k: &Case, zst: bool) -> Result<Vec<Observed>, String> {
+    let k = k.clone();
+    std::thread::Builder::new()
+        .stack_size(16 << 20)
+        .spawn(move || {
+            let mut eval = || if zst { actual_zst(&k) } else { actual(&k) };
+            let a = eval();
+            let b = descend(64, &mut eval);
+            let c = eval();
+            vec![a, b, c]
+        })
+        .map_err(|e| format!("cannot spawn: {e}"))?
+        .join()
+        .map_err(|p| format!("panicked: {}", crate::engine::panic_message(&p)))
+}
+
+/// Runs `f` while 300 other threads are parked inside a continuation or alternative of one of
+/// the combinators (cycled over all closure-taking ones). Returns `f`'s result and the first
+/// complaint of a parked thread about its own combinator.
+pub fn with_parked_threads<R>(f: impl FnOnce() -> R) -> (R, Option<String>) {
+    use std::sync::{Arc, Barrier};
+    const N: usize = 300;
+    let entered = Arc::new(Barrier::new(N + 1));
+    let release = Arc::new(Barrier::new(N + 1));
+    let mut handles = vec![];
+    for t in 0..N {
+        let (entered, release) = (entered.clone(), release.clone());
+        let (entered2, release2) = (entered.clone(), release.clone());
+        let h = std::thread::Builder::new().stack_size(256 << 10).spawn(move || -> Option<String> {
+            let mut calls = 0u32;
+            let mut park = || {
+                calls += 1;
+                entered.wait();
+                release.wait();
+            };
+            let d = t as i64;
+            let ok = match t % 9 {
+                0 => Parsed::<i64, i64>::Res(Ok(d)).and_then(|v| { park(); Ok(v) }) == Parsed::Res(Ok(d)),
+                1 => Parsed::<i64, i64>::Fallthrough.or_parse(|| { park(); Parsed::Res(Ok(d)) }) == Parsed::Res(Ok(d)),
+                2 => Parsed::<i64, i64>::Res(Ok(d)).and_also(|_| { park(); Ok(()) }) == Parsed::Res(Ok(d)),
+                3 => Parsed::<i64, i64>::Res(Ok(d)).map(|v| { park(); v }) == Parsed::Res(Ok(d)),
+                4 => Parsed::<i64, i64>::Res(Ok(d)).and_do(|_| park()) == Parsed::Res(Ok(d)),
+                5 => Parsed::<i64, i64>::Fallthrough.or_always_parse(|| { park(); Ok(d) }) == Ok(d),
+                6 => Parsed::<i64, i64>::Fallthrough.or_give_up(|| { park(); d }) == Err(d),
+                7 => Parsed::<i64, i64>::Res(Err(d)).map_err(|e| { park(); e }) == Parsed::Res(Err(d)),
+                _ => ResultExt::and_do(Ok::<i64, i64>(d), |_| park()) == Ok(d),
+            };
+            if calls == 0 {
+                // the closure was not invoked: do not leave the others waiting
+                entered.wait();
+                release.wait();
+            }
+            if !ok || calls != 1 {
+                Some(format!("parked thread {t} (combinator {}): result as documented: {ok}, closure invoked {calls} time(s)", t % 9))
+            } else {
+                None
+            }
+        });
+        match h {
+            Ok(h) => handles.push(h),
+            Err(_) => {
+                // cannot create the thread: keep the barriers consistent from here
+                handles.push(std::thread::spawn(move || {
+                    entered2.wait();
+                    release2.wait();
+                    None
+                }));
+            }
+        }
+    }
+    entered.wait();
+    let r = f();
+    release.wait();
+    let mut complaint = None;
+    for h in handles {
+        if let Ok(Some(c)) = h.join() {
+            complaint.get_or_insert(c);
+        }
+    }
+    (r, complaint)
+}
+
+pub fn check_concurrent(k: &Case, obs: &mut Obs) -> CheckResult {
+    let (r, complaint) = with_parked_threads(|| check(k, obs));
+    r?;
+    if let Some(c) = complaint {
+        fail!("C15:concurrent:parked-thread", "{c}");
+    }
+    Ok(())
+}
+
 pub fn check(k: &Case, obs: &mut Obs) -> CheckResult {
     if k.comb >= COMBINATORS.len()
         || !valid_inputs(k.comb).contains(&k.input)
@@ -508,8 +686,48 @@ pub fn check(k: &Case, obs: &mut Obs) -> CheckResult {
         if zst { "zero-sized-values+fn-items" } else { "i64-values+capturing-closures" },
         if unwinding { "+in-destructor-while-unwinding" } else { "" }
     ));
+    let nested = k.ctx & 4 != 0;
+    let deep_stack = k.ctx & 8 != 0;
+    obs.class_if(nested, "context/inside-1500-active-continuations");
+    obs.class_if(deep_stack, "context/shallow-deep-shallow-stack-positions");
     let want = if zst { erase(expected(k)) } else { expected(k) };
-    let eval = || if zst { actual_zst(k) } else { actual(k) };
+    if deep_stack {
+        let tag = format!("C15:{name}:in{}:cont{}:stack", k.input, k.cont);
+        match at_stack_positions(k, zst) {
+            Err(e) => fail!(tag, "{name} evaluated at different stack positions: {e}"),
+            Ok(v) => {
+                for (i, got) in v.iter().enumerate() {
+                    if *got != want {
+                        fail!(
+                            tag,
+                            "{name} evaluated at stack position {} (0 shallow, 1 about 4 MiB deeper, 2 shallow again): observed {:?}, documented {:?}",
+                            i,
+                            got,
+                            want
+                        );
+                    }
+                }
+            }
+        }
+    }
+    let nest_complaint: std::cell::RefCell<Option<String>> = std::cell::RefCell::new(None);
+    let eval = || {
+        let mut leaf = || if zst { actual_zst(k) } else { actual(k) };
+        if nested {
+            let mut bad = None;
+            let r = nest(NEST_DEPTH, &mut leaf, &mut bad);
+            if bad.is_some() {
+                *nest_complaint.borrow_mut() = bad;
+            }
+            match r {
+                Some(o) => o,
+                // a level did not run its closure: reported through the complaint
+                None => Observed { out: Out::Fall, calls: u32::MAX, arg: None },
+            }
+        } else {
+            leaf()
+        }
+    };
     let got = if unwinding {
         match while_unwinding(eval) {
             Ok(g) => g,
@@ -521,13 +739,18 @@ pub fn check(k: &Case, obs: &mut Obs) -> CheckResult {
     } else {
         eval()
     };
+    let nest_complaint = nest_complaint.into_inner();
     let sig = format!(
-        "C15:{name}:in{}:cont{}{}{}",
+        "C15:{name}:in{}:cont{}{}{}{}",
         k.input,
         k.cont,
         if zst { ":zst" } else { "" },
-        if unwinding { ":unwinding" } else { "" }
+        if unwinding { ":unwinding" } else { "" },
+        if nested { ":nested" } else { "" }
     );
+    if let Some(c) = nest_complaint {
+        fail!(format!("C15:nesting:{}", c.split('(').nth(1).and_then(|x| x.split(')').next()).unwrap_or("?")), "{c}");
+    }
     ensure!(
         got.calls == want.calls,
         sig,
@@ -567,7 +790,7 @@ fn run(ctx: &Ctx) {
             for &input in valid_inputs(comb) {
                 for &cont in valid_conts(comb) {
                     for &(a, b, c) in &payloads {
-                        for cx in 0..4u8 {
+                        for cx in 0..16u8 {
                             let k = Case {
                                 comb,
                                 input,
@@ -584,10 +807,31 @@ fn run(ctx: &Ctx) {
                 }
             }
         }
+        // the same enumeration (plain and zero-sized contexts) while 300 threads sit inside
+        // continuations / alternatives of the combinators
+        let (_, complaint) = with_parked_threads(|| {
+            for comb in 0..COMBINATORS.len() {
+                for &input in valid_inputs(comb) {
+                    for &cont in valid_conts(comb) {
+                        for cx in [0u8, 2] {
+                            let k = Case { comb, input, cont, a: 7, b: 11, c: 13, ctx: cx };
+                            ctx.run_one("enumerate-concurrent", &k, check);
+                            n += 1;
+                        }
+                    }
+                }
+            }
+        });
+        if let Some(c) = complaint {
+            let k = Case { comb: 0, input: 0, cont: 1, a: 7, b: 11, c: 13, ctx: 0 };
+            ctx.run_one("enumerate-concurrent", &k, move |_, _| {
+                Err(crate::engine::Failure::new("C15:concurrent:parked-thread", c.clone()))
+            });
+        }
         ctx.count("enumerate/combinations", n);
         ctx.exhaustive_part(format!(
-            "all {} (combinator, input, continuation) combinations x 3 payload triples x 4 evaluation contexts (plain / inside a destructor during unwinding, i64 payloads with capturing closures / zero-sized payloads with fn items)",
-            n / 12
+            "all {} (combinator, input, continuation) combinations x 3 payload triples x 16 evaluation contexts (plain / inside a destructor during unwinding; i64 payloads with capturing closures / zero-sized payloads with fn items; plain / inside 1500 active continuations of the combinators; one stack position / shallow, 4 MiB deeper, shallow again on one thread), and once more while 300 threads are parked inside continuations of the combinators",
+            n / 48
         ));
     }
     // Payload values drawn by proptest over the same finite skeleton.
@@ -598,7 +842,7 @@ fn run(ctx: &Ctx) {
         any::<i64>(),
         any::<i64>(),
         any::<i64>(),
-        prop_oneof![12 => Just(0u8), 1 => Just(1u8), 1 => Just(2u8), 1 => Just(3u8)],
+        prop_oneof![40 => Just(0u8), 4 => Just(1u8), 4 => Just(2u8), 4 => Just(3u8), 2 => 4u8..8, 1 => 8u8..16],
     )
         .prop_map(|(comb, input, cont, a, b, c, cx)| {
             let vi = valid_inputs(comb);
@@ -619,6 +863,13 @@ fn run(ctx: &Ctx) {
 
 fn replay(oracle: &str, v: &Value) -> Option<CheckResult> {
     match oracle {
+        "enumerate-concurrent" => {
+            let k: Case = match replay_from_file(v) {
+                Ok(k) => k,
+                Err(e) => return Some(Err(crate::engine::Failure::new("C15:decode", e))),
+            };
+            Some(check_concurrent(&k, &mut Obs::default()))
+        }
         "enumerate" | "payloads" => {
             let k: Case = match replay_from_file(v) {
                 Ok(k) => k,
